@@ -45,7 +45,9 @@ class C06Bounded(Bounded):
         # --- detection shapes x modifier chains x values
         values = ["a", "a*", "a\\*b", "a\\\\b", "*", "", "100%", "x y", 5, 1.5, True, None, ["a", "b*"], ["a", 1, None], [], "index.php\\?id=", "a\\?b*", "?a\\?", ["x\\?", "y?"]]
         keys = ["f", "f|contains", "f|startswith", "f|endswith", "f|contains|all", "f|re", "f|re|i", "f|re|i|m", "f|cidr", "f|cased", "f|base64", "f|base64offset|contains", "f|wide|base64", "f|windash", "f|expand",
-                "f|exists", "f|fieldref", "f|gt", "f|lte", "f|hour", "f|neq", "|contains", ""]
+                "f|exists", "f|fieldref", "f|gt", "f|lte", "f|hour", "f|neq", "|contains", "",
+                # the same modifiers in another order / repeated are another chain (all in one process: nothing remembered about one chain may answer for another)
+                "f|base64|wide", "f|base64|base64", "f|contains|cased", "f|cased|contains", "f|utf16be|base64offset|contains", "f|base64offset|utf16be|contains", "f|all|contains"]
         specials = {"f|cidr": ["10.0.0.0/8", "::1/128"], "f|exists": [True, False], "f|gt": [5, 1.5], "f|lte": [3], "f|hour": [7], "f|fieldref": ["other", "o\\*x"], "f|re": ["a.*b", "x\\\\y", "^a\\*$", "a|b"], "f|re|i": ["ab+"], "f|re|i|m": ["ab*"]}
         for k in keys:
             for v in specials.get(k, values):
@@ -200,7 +202,9 @@ class C06Bounded(Bounded):
                      {"title": "t", "logsource": {"category": "c"}, "detection": {"sel": {"f|fieldref": "f", "f2|expand": "%a%"}, "condition": "sel"}},
                      {"title": "t", "logsource": {"category": "c"}, "detection": {"sel": {"x|fieldref": "f", "y|fieldref|startswith": "f"}, "condition": "sel"}},
                      {"title": "t", "logsource": {"category": "c"}, "detection": {"sel": {"Hashes|contains": "MD5=0123"}, "lst": [{"f": 1}, {"f|re": "a+"}], "condition": "sel or lst"}},
-                     {"title": "t", "logsource": {"category": "c"}, "detection": {"sel": {"f|windash|contains": "-a", "g|base64offset|contains": "xy", "h|wide|base64": "z"}, "num": {"f": [1, 2]}, "condition": "sel and num"}}]
+                     {"title": "t", "logsource": {"category": "c"}, "detection": {"sel": {"f|windash|contains": "-a", "g|base64offset|contains": "xy", "h|wide|base64": "z"}, "num": {"f": [1, 2]}, "condition": "sel and num"}},
+                     # case-sensitive values: `cased` is part of the meaning and must survive a value transformation and the round trip
+                     {"title": "t", "logsource": {"category": "c"}, "detection": {"sel": {"f|cased": "a", "g|cased|contains": "ab", "h|endswith|cased": "xa"}, "condition": "sel"}}]
         import json
         kfile = os.path.join(VERIF, "known", "c06_after_transformation.json")
         KNOWN_T = set(tuple(x) for x in json.load(open(kfile))) if os.path.exists(kfile) else set()
